@@ -26,6 +26,9 @@ def scenarios(tier):
     scs = []
     for cfg in cfgs:
         scs.append({"id": len(scs) + 1, "cfg": cfg})
+        if cfg["fail"] != [0, 0]:
+            # the same failure repaired by a file that is one statement longer
+            scs.append({"id": len(scs) + 1, "cfg": cfg, "fix_extra": True})
         if cfg["fail"] == [0, 0] or cfg["fail"] == [1, 1]:
             # dry-run on the fresh database, and after the first real command (revision table exists, maybe partial progress)
             scs.append({"id": len(scs) + 1, "cfg": cfg, "dry_at": [0]})
